@@ -482,6 +482,74 @@ func agentDoPoll(t *testing.T, dir string, wakeDuringWindow bool) (o agentObs, p
 	return
 }
 
+// agentLocalWake: the agent's own poll cycle (doPoll) is in its poll_duration
+// wait when the agent is woken through the local path (what Agent.TriggerWake
+// / POST /wake do first: sleepMgr.Wake(), no mesh WAKE frame, so nothing
+// cancels the poll context). When the wait ends doPoll must see AWAKE and keep
+// the connections. Reports whether doPoll went on to its DisconnectAll.
+type localWakeObs struct {
+	WakeErr           string `json:"wake_err,omitempty"`
+	StateAtEnd        int    `json:"state_at_end"`
+	ReachedDisconnect bool   `json:"dopoll_reached_disconnect"`
+	PausedEnd         bool   `json:"paused_at_end"`
+	WakeAfterMs       int64  `json:"wake_after_ms"`
+}
+
+func agentLocalWake(t *testing.T, dir string, wakeAfterMs int64) (o localWakeObs, panicked string) {
+	o.WakeAfterMs = wakeAfterMs
+	synctest.Test(t, func(t *testing.T) {
+		panicked = vh.Recover(func() {
+			cfg := config.Default()
+			cfg.Agent.ID = "a0a0a0a0a0a0a0a0a0a0a0a0a0a00000"
+			cfg.Agent.DataDir = dir
+			cfg.Agent.LogLevel = "error"
+			cfg.UDP.Enabled, cfg.ICMP.Enabled, cfg.SOCKS5.Enabled, cfg.HTTP.Enabled = false, false, false, false
+			cfg.Listeners, cfg.Peers = nil, nil
+			cfg.Sleep.Enabled = true
+			cfg.Sleep.PersistState = false
+			cfg.Sleep.PollInterval = time.Hour
+			cfg.Sleep.PollIntervalJitter = 0
+			cfg.Sleep.PollDuration = 30 * time.Second
+			a, err := agent.New(cfg)
+			if err != nil {
+				panic(err)
+			}
+			var mu sync.Mutex
+			agent.VerifSetYieldHook(func(point string) {
+				if point == "agent.dopoll.before-disconnect" {
+					mu.Lock()
+					o.ReachedDisconnect = true
+					mu.Unlock()
+				}
+			})
+			defer agent.VerifSetYieldHook(nil)
+			mgr := a.VerifInitSleepManager(sleep.Callbacks{
+				OnSleep: func() error { return nil },
+				OnWake:  func() error { return nil },
+				OnPoll:  a.VerifDoPoll,
+			})
+			defer func() {
+				mgr.Stop()
+				a.Stop()
+			}()
+			if err := mgr.Sleep(); err != nil {
+				panic(err)
+			}
+			time.Sleep(time.Hour + time.Millisecond) // the poll timer fires, doPoll starts its 30 s window
+			synctest.Wait()
+			time.Sleep(time.Duration(wakeAfterMs) * time.Millisecond)
+			if err := mgr.Wake(); err != nil {
+				o.WakeErr = err.Error()
+			}
+			time.Sleep(40 * time.Second) // the poll window ends
+			synctest.Wait()
+			o.StateAtEnd = int(mgr.GetState())
+			o.PausedEnd = a.VerifPeersPaused()
+		})
+	})
+	return
+}
+
 // ---------------------------------------------------------------------------
 // Real-time lock-contention scenarios. A goroutine that waits for stateMu is
 // not "durably blocked" for synctest, so interleavings in which Poll() or
@@ -837,6 +905,23 @@ func TestVerif(t *testing.T) {
 		}
 
 	}
+	runAgentLocalWake := func(afterMs int64) {
+		nDir++
+		dir := filepath.Join(base, fmt.Sprintf("agentlw%d", nDir))
+		os.MkdirAll(dir, 0o755)
+		lo, p := agentLocalWake(t, dir, afterMs)
+		rp := map[string]any{"scenario": "agent-local-wake", "delay_ms": afterMs, "observed": lo}
+		if p != "" {
+			c.Fail("panic", p, rp)
+			return
+		}
+		c.Case(fmt.Sprintf("agent-local-wake/%d", afterMs), true, rp)
+		c.Count("agent-local-wake")
+		coq = append(coq, "[]")
+		if lo.WakeErr == "" && lo.StateAtEnd == 0 && (lo.ReachedDisconnect || lo.PausedEnd) {
+			c.Fail("agent-dopoll-disconnects-after-local-wake", fmt.Sprintf("the agent was woken through the local path %d ms into its poll window (state AWAKE); when the window ended doPoll went on to DisconnectAll (reached=%v, reconnection paused=%v)", afterMs, lo.ReachedDisconnect, lo.PausedEnd), rp)
+		}
+	}
 	runAgentDoPoll := func(wake bool) {
 		nDir++
 		dir := filepath.Join(base, fmt.Sprintf("agent%d", nDir))
@@ -869,6 +954,8 @@ func TestVerif(t *testing.T) {
 		}
 		seen = map[string]bool{}
 		switch {
+		case cs.Scenario == "agent-local-wake":
+			runAgentLocalWake(int64(cs.DelayMs))
 		case cs.Scenario == "agent-dopoll":
 			runAgentDoPoll(cs.Wake != nil && *cs.Wake)
 		case cs.Scenario != "":
@@ -915,6 +1002,9 @@ func TestVerif(t *testing.T) {
 		// agent level: doPoll's unlocked "state read, then DisconnectAll" against a completing Wake
 		for _, wake := range []bool{true, false} {
 			runAgentDoPoll(wake)
+		}
+		for _, ms := range []int64{0, 1000, 29000} {
+			runAgentLocalWake(ms)
 		}
 		// real-time lock-contention scenarios (monitor only)
 		for _, sc := range []string{"poll-while-wake-holds-lock", "wake-during-poll-end"} {
